@@ -206,6 +206,13 @@ impl Prop for C13 {
     fn cases(&self, tier: Tier) -> u64 {
         tier.pick(15000, 100000)
     }
+    fn fuzz_plan(&self, tier: Tier) -> Vec<(&'static str, u64)> {
+        if tier == Tier::Thorough {
+            vec![("prop", 60000_u64)]
+        } else {
+            vec![]
+        }
+    }
     fn choice_len(&self) -> usize {
         64
     }
